@@ -115,6 +115,21 @@ def run_tree(res, spec, filters):
                 check, "is_complete-wrong", sig=sig, spec=spec, filters=filters,
                 history=hist, observed=complete, n_dispatched=len(hist), n_ops=ref.N,
             )
+        # "each operation appears at most once": a repeated request for an
+        # operation that is already scheduled must not get into the schedule
+        if hist and not filters:
+            for op_id in st.where:
+                j, p, ms, _ = ref.ops[op_id]
+                d3 = impl.mk_dispatcher(live.inst, filters)
+                impl.replay(d3, hist)
+                try:
+                    d3.dispatch(live.inst.jobs[j][p], ms[0])
+                except Exception:  # noqa: BLE001  (rejected: fine)
+                    continue
+                res.add("transitions")
+                e3 = feasibility_errors(ref, impl.snap_schedule(d3.schedule))
+                if e3:
+                    res.violation(check, "operation-scheduled-twice", sig=sig, spec=spec, filters=filters, history=hist, repeated_operation=op_id, errors=e3[:3])
         # a further episode on a dispatcher that was reset at this point: the
         # same clauses must hold (feasible after every step, complete exactly
         # after one accepted dispatch per operation)
